@@ -15,6 +15,9 @@ import (
 
 // ---- (e) the stash: Stash.Add / clear-stash with ranges / use-stash / restart on the global repl.TheStash ----
 
+// lispScope evaluates the REPL's Lisp functions (clear-history, clear-stash, use-stash).
+var lispScope = slip.NewScope()
+
 type SOp struct {
 	Kind  string   `json:"op"` // add | clear | use | restart
 	Form  []string `json:"form,omitempty"`
@@ -118,10 +121,10 @@ func StashWorker(ctx *common.Ctx) {
 var stashPool = [][]string{
 	{"(a)"}, {"(b 1)"}, {"(c 2 3)"}, {"(defun f ()", "  1)"}, {"(let ((x 1))", "  x)"}, {"(d)"}, {"(e \"s\")"},
 	{"(e \"λ é\")"}, {"x"}, {"  (lead)"}, {"(trail)  "}, {"(s \"(\")"}, {"(k ; not closed )", "  2)"}, {"(q \"a\\\"b\" \")\")"},
-	{"(three", "  ", "  lines)"}, {"\"a string", "over two lines\""},
+	{"(three", "  ", "  lines)"}, {"\"a string", "over two lines\""}, {"(e", "", ")"}, {"(defun g ()", "", "", "  2)"},
 }
 var stashOdd = [][]string{
-	{"   "}, {}, {"(a\tb)"}, {"(e", "", ")"}, {"(p"}, {"(two)", "(forms)"}, {"", "(first-empty)"}, {"(last-empty)", ""}, {")"}, {"(λ é)"},
+	{"   "}, {}, {"(a\tb)"}, {"(p"}, {"(two)", "(forms)"}, {"", "(first-empty)"}, {"(last-empty)", ""}, {")"}, {"(λ é)"},
 }
 
 func gSOp(o SOp) string {
